@@ -532,6 +532,11 @@ def _multi_cases(draw, tier):
     spec = draw(_spec(multi=True))
     fn = draw(st.sampled_from(FUNCS))
     lfs = [draw(_load_factor(spec["bins"], "secondary" in fn)) for _ in range(draw(st.integers(1, 6)))]
+    k = len(spec["max"])
+    for lf in lfs:
+        # per-point signs (mixed) and a zero load next to loaded points - never at the first point, whose load selects the class
+        lf["signs"] = draw(st.lists(st.sampled_from([1.0, -1.0]), min_size=k, max_size=k)) if draw(st.booleans()) else None
+        lf["zero_at"] = draw(st.integers(1, k - 1)) if k > 1 and draw(st.integers(0, 3)) == 2 else None
     return {"spec": spec, "fn": fn, "factors": lfs}
 
 
@@ -572,6 +577,13 @@ def per_point(case, ctx):
     nt = False
     for lf in case["factors"]:
         loads = [_materialise(lf, m, n) for _, m in spec["max"]]
+        if lf.get("signs"):
+            loads = [abs(L) * sg for L, sg in zip(loads, lf["signs"])]
+            if len(set(lf["signs"])) > 1:
+                ctx.label("mixed_signs")
+        if lf.get("zero_at") is not None:
+            loads[lf["zero_at"]] = 0.0
+            ctx.label("zero_next_to_loaded_points")
         ctx.label("load:" + lf["kind"])
         if lf["ulp"]:
             ks = set(expected_class(edge[sec][j], abs(L)) for j, L in enumerate(loads))
